@@ -143,7 +143,42 @@ WhyInvalid(U, P, S, X) ==
   ELSE ""
 
 (***************************************************************************)
-(* C02: satisfiability, by a recursive per-package search.                 *)
+(* A small propositional toolkit (used for the satisfiability oracle, the  *)
+(* conflict-graph refutation and the proof checks on recorded clauses).    *)
+(* A literal is <<variable, 0|1>>; a clause is a set of literals.          *)
+(***************************************************************************)
+Neg(x) == <<x[1], 1 - x[2]>>
+
+\* unit propagation over a set of clauses (sets of literals) from the set A of
+\* true literals; the result is the extended set, or {<<-1,-1>>} on conflict.
+\* Satisfied clauses are dropped on the way down.
+Remain(c, A) == {x \in c : Neg(x) \notin A}
+RECURSIVE UP(_, _)
+UP(C, A) ==
+  LET open == {c \in C : \A x \in c : x \notin A} IN
+  IF \E c \in open : Remain(c, A) = {} THEN {<<-1, -1>>}
+  ELSE LET new == UNION {Remain(c, A) : c \in {d \in open : Cardinality(Remain(d, A)) = 1}} IN
+       IF new = {} THEN A
+       ELSE IF \E x \in new : Neg(x) \in new THEN {<<-1, -1>>}
+       ELSE UP(open, A \cup new)
+RUP(C, lits) == UP(C, {Neg(x) : x \in lits}) = {<<-1, -1>>}
+
+\* DPLL: no assignment extending A satisfies every clause of C
+RECURSIVE Unsat(_, _)
+Unsat(C, A) ==
+  LET r == UP(C, A) IN
+  IF r = {<<-1, -1>>} THEN TRUE
+  ELSE LET open == {c \in C : \A x \in c : x \notin r} IN
+       IF open = {} THEN FALSE
+       ELSE LET c == CHOOSE c \in open : TRUE
+                x == CHOOSE x \in Remain(c, r) : TRUE
+            IN Unsat(open, r \cup {x}) /\ Unsat(open, r \cup {Neg(x)})
+
+(***************************************************************************)
+(* C02: satisfiability.  Two independent definitions: a recursive          *)
+(* per-package search (SatisfiableSearch) and DPLL over a reference clause *)
+(* encoding written directly from the rules of C01 (Satisfiable).  They    *)
+(* are cross-checked on enumerated micro universes (MC_Universe).          *)
 (***************************************************************************)
 Usable(U, s) ==
   /\ U.solv[s].known
@@ -165,7 +200,23 @@ SatFrom(U, P, ns, S) ==
             /\ SatFrom(U, P, Tail(ns), S \cup {c})
 
 NameSeq(U) == [i \in 1..Len(U.pkg) |-> i]
-Satisfiable(U, P) == SatFrom(U, Hard(P), NameSeq(U), {})
+SatisfiableSearch(U, P) == SatFrom(U, Hard(P), NameSeq(U), {})
+
+\* reference encoding: variable 0 is the root, variable s a listed solvable
+Listed(U) == UNION {Range(Cands(U, n)) : n \in Names(U)}
+ReqClause(U, x, r) == {<<x, 0>>} \cup {<<c, 1>> : c \in UNION {MatchSet(U, r[j]) : j \in DOMAIN r}}
+ConClauses(U, x, v) == {{<<x, 0>>, <<c, 0>>} : c \in Range(NonMatch(U, v))}
+RefClauses(U, P) ==
+       {ReqClause(U, 0, P.reqs[i]) : i \in DOMAIN P.reqs}
+  \cup UNION {ConClauses(U, 0, P.cons[i]) : i \in DOMAIN P.cons}
+  \cup {{<<s, 0>>} : s \in {t \in Listed(U) : ~Usable(U, t)}}
+  \cup UNION {{ReqClause(U, s, U.solv[s].reqs[i]) : i \in DOMAIN U.solv[s].reqs}
+               : s \in {t \in Listed(U) : Usable(U, t)}}
+  \cup UNION {UNION {ConClauses(U, s, U.solv[s].cons[i]) : i \in DOMAIN U.solv[s].cons}
+               : s \in {t \in Listed(U) : Usable(U, t)}}
+  \cup UNION {UNION {{{<<a, 0>>, <<b, 0>>} : b \in Range(Cands(U, n)) \ {a}} : a \in Range(Cands(U, n))}
+               : n \in Names(U)}
+Satisfiable(U, P) == ~Unsat(RefClauses(U, Hard(P)), {<<0, 1>>})
 
 \* the naive definition, for cross-checking the search on micro universes
 SatisfiableNaive(U, P) == \E S \in SUBSET Solvs(U) :
@@ -228,11 +279,16 @@ SatSeed(U, P, ns, S, D) ==
                  /\ Usable(U, c) /\ PartialOK(U, P, S \cup {c})
                  /\ SatSeed(U, P, Tail(ns), S \cup {c}, D)
 
-DirectBestFeasible(U, P) ==
+DirectBestFeasibleSearch(U, P) ==
   LET D == DirectBest(U, P) IN
   /\ AllSingle(P) /\ 0 \notin D /\ V_OnePerName(U, D)
   /\ \A d \in D : Usable(U, d)
   /\ SatSeed(U, Hard(P), NameSeq(U), D, D)
+
+DirectBestFeasible(U, P) ==
+  LET D == DirectBest(U, P) IN
+  /\ AllSingle(P) /\ 0 \notin D /\ V_OnePerName(U, D)
+  /\ ~Unsat(RefClauses(U, Hard(P)), {<<0, 1>>} \cup {<<d, 1>> : d \in D})
 
 (***************************************************************************)
 (* C09: names a dependency record mentions.                                *)
